@@ -229,7 +229,9 @@ off64_t _GD_GetEOF(DIRFILE *restrict D, gd_entry_t *restrict E,
           break;
         }
 
-        ns1 = ns1 * spf0 / spf1;
+        /* floor: an unclamped end-of-field may be negative */
+        ns1 *= spf0;
+        ns1 = (ns1 >= 0) ? ns1 / spf1 : -((-ns1 + spf1 - 1) / spf1);
         if (*is_index || ns1 < ns) {
           *is_index = is_index1;
           ns = ns1;
@@ -270,7 +272,9 @@ off64_t _GD_GetEOF(DIRFILE *restrict D, gd_entry_t *restrict E,
             break;
           }
 
-          ns1 = ns1 * spf0 / spf1;
+          /* floor: an unclamped end-of-field may be negative */
+          ns1 *= spf0;
+          ns1 = (ns1 >= 0) ? ns1 / spf1 : -((-ns1 + spf1 - 1) / spf1);
           if (*is_index || ns1 < ns) {
             *is_index = is_index1;
             ns = ns1;
@@ -280,12 +284,10 @@ off64_t _GD_GetEOF(DIRFILE *restrict D, gd_entry_t *restrict E,
       break;
     case GD_PHASE_ENTRY:
       ns = _GD_GetEOF(D, E->e->entry[0], E->field, is_index);
+      /* not clamped here: a later PHASE may shift it back (gd_eof64 reports
+       * a negative end-of-field as zero) */
       if (!*is_index && !D->error)
         ns -= E->EN(phase,shift);
-
-      /* The EOF may never be negative. */
-      if (ns < 0)
-        ns = 0;
 
       break;
     case GD_INDEX_ENTRY:
@@ -337,6 +339,10 @@ off64_t gd_eof64(DIRFILE* D, const char *field_code)
   if (!D->error && is_index)
     GD_SET_RETURN_ERROR(D, GD_E_BAD_FIELD_TYPE, GD_E_FIELD_BAD, NULL, 0,
         field_code);
+
+  /* The EOF may never be negative. */
+  if (!D->error && ns < 0)
+    ns = 0;
 
   dreturn("%" PRId64, (int64_t)ns);
   return ns;
@@ -414,9 +420,8 @@ static off64_t _GD_GetBOF(DIRFILE *restrict D, gd_entry_t *restrict E,
           bof += nf;
         }
 
-        /* The beginning-of-frame may not be before frame zero */
-        if (bof < 0)
-          bof = *ds = 0;
+        /* not clamped here: a later PHASE may shift it back (gd_bof64 reports
+         * a beginning-of-field before sample zero as zero) */
       }
 
       break;
@@ -516,8 +521,13 @@ off64_t gd_bof64(DIRFILE* D, const char *field_code) gd_nothrow
 
   bof = _GD_GetBOF(D, entry, NULL, &spf, &ds);
 
-  if (bof >= 0) /* i.e. not an error code */
+  if (!D->error) {
     bof = bof * spf + ds;
+
+    /* The beginning-of-field may not be before sample zero */
+    if (bof < 0)
+      bof = 0;
+  }
 
   dreturn("%" PRId64, (int64_t)bof);
   return bof;
